@@ -116,6 +116,9 @@ fn ids(s: &BTreeSet<usize>) -> Vec<usize> {
     s.iter().map(|c| c + 1).collect()
 }
 impl Sut for BlSut {
+    fn config(&self) -> Value {
+        json!([self.f.m(), self.f.k()])
+    }
     const TAG: &'static str = "bl";
     fn new(cfg: &Value) -> Self {
         let u = build_universe(cfg);
